@@ -9,7 +9,14 @@ A construct outside the supported subset is an error
     TRANSLATOR-ERROR: <file>:<line>: unsupported <construct>
 with exit status 2 and nothing written (fail closed).  The file is rewritten only when its content changes.
 
+Phase 2: the daily-process functions without a loop over soil compartments (irrigation, growth_stage,
+biomass_accumulation, HIref_current_day, HIadj_*, the yield lines of run_single_timestep.py) go to a second file,
+coq/theories/gen/ProcsSrc.v (proofs: theories/proofs/ProcsSrcOK.v); see the tables PROCS, EXTERNALS, DIV_RAISES,
+ROUND_OPS below for what had to be decided by hand and is therefore written down explicitly.
+
 usage: gen_kernels.py [--out DIR] [--only fn,fn]      env VERIF_REPO=<root of the source tree> (default /repo)
+       writes KernelsSrc.v and ProcsSrc.v (nothing unless both translate); from Python: generate(only) / generate_procs(only)
+       -> (text, statistics), TranslatorError on a refusal
 self-test: harness/tools/tests_gen_kernels.py
 
 Supported subset (everything else is refused)
@@ -23,6 +30,16 @@ Supported subset (everything else is refused)
       | np.zeros(k) np.ones(k) [e, ...] len(a)   (arrays: element-wise + - * / and np.minimum/np.maximum, broadcasting scalars)
       | "text" only in (in)equality tests against a parameter of kind S
       | g(args) as the whole right-hand side of an assignment, g an earlier translated function imported by name
+  Phase 2 additions
+      integer-kind values as locals: + - * on them is Python int arithmetic (Z), `%` is Z.modulo behind a
+        ZeroDivisionError guard, int(<integer>) is the identity, an int meeting a float is injected with nofZ (`#z`)
+      L[i] on a list parameter with a run-time integer index: py_index_src (negative wrap-around, IndexError -> None)
+      assert e (AssertionError -> None); float(e); np.isnan(e) (= negb (e =? e)); np.sin / np.pi (class TrigSrc);
+        min([a, b, c]) / max([...]) (left fold of pmin / pmax); int(...) / round(...) only through ROUND_OPS
+      a division listed in DIV_RAISES raises ZeroDivisionError (-> None) when its denominator =? 0
+      `t1, ..., tn = g(args)` for g in EXTERNALS: the results read become parameters, the argument texts are recorded
+      Obj.attr = e : the attribute becomes a slot (see PROCS); `return Obj` returns the slots; `X = Obj` is an alias
+      an operation that can raise inside an operand that and/or may skip is refused
   Blocks (see BLOCKS below): a run of consecutive top-level statements of a larger function, delimited by its first
   `if <test>:` and its only store to a given attribute, is translated like a function body whose parameters are the
   names it reads and the enclosing function binds earlier; assumptions a block needs are printed in its header.
@@ -86,12 +103,87 @@ KINDS = {
     ("fco2_block", "param_struct.NCrops"): "C1",
     ("fco2_block", "param_struct.CropList"): "OL",
 }
+# ------------------------------------------------------------------------------------------------------------------
+#  phase 2: daily-process functions without a loop over soil compartments -> coq/theories/gen/ProcsSrc.v
+#  Further kinds: L list of numbers indexed with a run-time integer (IndexError -> None), X opaque value that is only
+#  passed on to an external call.  Z values may now be locals and take part in integer arithmetic (+ - * %).
+#  An attribute that the function WRITES (`Obj.x = e`) is a slot: it starts as the parameter Obj_x (kept only if the
+#  generated body uses it), later reads see the last value written, and `return Obj` returns the tuple of the slots in
+#  the order of their first store in the source text.  `X = Obj` at the top of the body makes X another name of Obj.
+# ------------------------------------------------------------------------------------------------------------------
+PROCS_FILE = "ProcsSrc.v"
+PROCS = [
+    ("aquacrop/solution/irrigation.py", "irrigation"),
+    ("aquacrop/solution/growth_stage.py", "growth_stage"),
+    ("aquacrop/solution/biomass_accumulation.py", "biomass_accumulation"),
+    ("aquacrop/solution/HIref_current_day.py", "HIref_current_day"),
+    ("aquacrop/solution/HIadj_pre_anthesis.py", "HIadj_pre_anthesis"),
+    ("aquacrop/solution/HIadj_pollination.py", "HIadj_pollination"),
+    ("aquacrop/solution/HIadj_post_anthesis.py", "HIadj_post_anthesis"),
+    ("aquacrop/timestep/run_single_timestep.py", "yield_block"),
+]
+BLOCKS["yield_block"] = dict(func="solution_single_time_step", first_store="NewCond.YieldPot", last_if="growing_season is True",
+                             returns="NewCond")
+KINDS.update({
+    ("irrigation", "IrrMngt_IrrMethod"): "Z",
+    ("irrigation", "IrrMngt_SMT"): "L",
+    ("irrigation", "IrrMngt_IrrInterval"): "Z",
+    ("irrigation", "IrrMngt_Schedule"): "L",
+    ("irrigation", "NewCond_GrowthStage"): "Z",
+    ("irrigation", "NewCond_DAP"): "Z",
+    ("irrigation", "NewCond_TimeStepCounter"): "Z",
+    ("irrigation", "NewCond_th"): "X",
+    ("irrigation", "prof"): "X",
+    ("irrigation", "growing_season"): "B",
+    ("growth_stage", "Crop.CalendarType"): "Z",
+    ("growth_stage", "InitCond.dap"): "Z",
+    ("growth_stage", "InitCond.delayed_cds"): "Z",
+    ("growth_stage", "InitCond.growth_stage"): "Z",
+    ("growth_stage", "growing_season"): "B",
+    ("biomass_accumulation", "Crop.CropType"): "Z",
+    ("biomass_accumulation", "NewCond_DAP"): "Z",
+    ("biomass_accumulation", "NewCond_DelayedCDs"): "Z",
+    ("biomass_accumulation", "growing_season"): "B",
+    ("HIref_current_day", "Crop.CropType"): "Z",
+    ("HIref_current_day", "NewCond_DAP"): "Z",
+    ("HIref_current_day", "NewCond_DelayedCDs"): "Z",
+    ("HIref_current_day", "NewCond_YieldForm"): "B",
+    ("HIref_current_day", "growing_season"): "B",
+    ("HIadj_post_anthesis", "NewCond_DAP"): "Z",
+    ("HIadj_post_anthesis", "NewCond_DelayedCDs"): "Z",
+    ("yield_block", "growing_season"): "B",
+    ("yield_block", "crop.CalendarType"): "Z",
+    ("yield_block", "NewCond.dap"): "Z",
+    ("yield_block", "NewCond.crop_mature"): "B",
+})
+# external calls: (function, callee) -> number of results.  The call must be `t1, ..., tn = callee(args)`; the results
+# that the function reads become parameters named like the targets (appended to the signature in target order); the
+# source text of the arguments is recorded in the generated `<function>_src_calls` so that the proofs can pin it.
+EXTERNALS = {
+    ("irrigation", "root_zone_water"): 11,
+}
+# divisions that raise ZeroDivisionError (both operands are Python numbers at run time; decided by the dynamic types
+# observed in real runs, exactly as in the hand models): (function, source text of the division).  Every other
+# division is a total IEEE division (numpy scalar involved).
+DIV_RAISES = {
+    ("biomass_accumulation", "HIt / (Crop.YldFormCD / 3)"),
+    ("biomass_accumulation", "TrPot / et0"),
+    ("biomass_accumulation", "Tr / et0"),
+    ("HIadj_pollination", "t1 / Crop_FloweringCD"),
+    ("HIadj_pollination", "t2 / Crop_FloweringCD"),
+    ("HIadj_post_anthesis", "tmax1 / DayCor"),
+    ("HIadj_post_anthesis", "tmax2 / DayCor"),
+}
+# int(...) / round(...) of a number: (function, source text of the call) -> Num.v operation.  int() of an integer-kind
+# value is the identity and needs no entry; anything else that is not listed here is refused.
+ROUND_OPS = {
+}
 MAX_ARRAY = 4
 EXACT = 2 ** 53          # Python ints below this bound are exact doubles
 RESERVED = set("""F N Type Prop Set if then else let in fun match with end as return forall exists fix cofix struct where at
     Some None option true false bool negb andb orb Z nat list pair fst snd
     num_ops Num NumOps nopp nadd nsub nmul ndiv nleb nltb neqb nofZ nexp nln nlog10 npow nrint nround_np nround_py ntrunc nfloor
-    pmin pmax npmin npmax nabs sum_seq pystr pystr_eqb""".split())
+    pmin pmax npmin npmax nabs sum_seq pystr pystr_eqb py_index_src TrigSrc ssin spi""".split())
 
 
 class TranslatorError(Exception):
@@ -110,6 +202,14 @@ class Ctx:
         self.strings = None        # shared list of string constants
         self.translated = {}       # earlier translated functions: name -> info
         self.imported = {}         # module-level `from .x import g` names -> g
+        self.alias = {}            # local name -> object parameter it is another name of
+        self.alias_stmts = set()
+        self.slots = {}            # "Obj.attr" written by the function -> kind
+        self.pre = []              # pending partial operations of the statement being translated
+        self.ext_stmts = {}        # id(assign statement of an external call) -> {target: coq parameter}
+        self.calls = []            # (callee, [argument source texts])
+        self.uses_trig = False
+        self.calls_opt = False
 
 
 def bad(ctx, node, what):
@@ -153,6 +253,40 @@ class A:
 
 def par(v, maxprec):
     return "(%s)" % v.t if v.prec > maxprec else v.t
+
+
+def zable(v):
+    """a Python int: integer-kind value or integer constant"""
+    return not isinstance(v, A) and (v.kind == "Z" or (v.kind == "F" and v.const is not None))
+
+
+def to_Z(v):
+    """integer-kind view (text valid inside Z scope)"""
+    if v.kind == "Z":
+        return v
+    return V(str(v.const) if v.const >= 0 else "(%d)" % v.const, 0, "Z", None, v.const)
+
+
+def zwrap(v):
+    """text of an integer-kind value for a position outside Z scope"""
+    if v.prec == 0 and v.t.isidentifier():
+        return v.t
+    if v.prec == 0 and v.t.isdigit():
+        return v.t + "%Z"
+    return "(%s)%%Z" % v.t
+
+
+def to_F(v):
+    """a Python int used where a float operation takes place: injected with nofZ"""
+    if v.kind != "Z":
+        return v
+    if v.const is not None and v.const >= 0:
+        return V("#%d" % v.const, 0, "F", v.const, v.const)
+    return V("#" + zwrap(v), 0, "F")
+
+
+def vtext(v):
+    return zwrap(v) if v.kind == "Z" else v.t
 
 
 def float_literal(ctx, node, x):
@@ -236,7 +370,12 @@ def need_F(ctx, node, v, what):
 
 
 def arith(ctx, node, op, a, b):
-    """one scalar arithmetic operation on F values"""
+    """one scalar arithmetic operation on F values (integer-kind operands: integer arithmetic, or injected)"""
+    if not isinstance(a, A) and not isinstance(b, A) and (a.kind == "Z" or b.kind == "Z"):
+        if zable(a) and zable(b) and not isinstance(op, ast.Div):
+            return zarith(ctx, node, op, to_Z(a), to_Z(b))
+        if a.kind in ("Z", "F") and b.kind in ("Z", "F"):
+            a, b = to_F(a), to_F(b)
     need_F(ctx, node, a, "arithmetic")
     need_F(ctx, node, b, "arithmetic")
     both_int = a.ib is not None and b.ib is not None
@@ -254,6 +393,8 @@ def arith(ctx, node, op, a, b):
         sym, lp, rp, prec = "/", 40, 39, 40
         if both_int and (a.ib >= EXACT or b.ib >= EXACT):
             bad(ctx, node, "integer division beyond 2**53")
+        if (ctx.fname, ast.unparse(node)) in DIV_RAISES:
+            ctx.pre.append(("guard", "%s =? #0" % par(b, 50), "ZeroDivisionError", getattr(node, "lineno", 0)))
     else:
         bad(ctx, node, "operator %s" % type(op).__name__)
     if ib is not None and ib >= EXACT:
@@ -261,6 +402,28 @@ def arith(ctx, node, op, a, b):
     if a.const is not None and b.const is not None and not isinstance(op, ast.Div):
         const = {ast.Add: a.const + b.const, ast.Sub: a.const - b.const, ast.Mult: a.const * b.const}[type(op)]
     return V("%s %s %s" % (par(a, lp), sym, par(b, rp)), prec, "F", ib, const)
+
+
+def zarith(ctx, node, op, a, b):
+    """Python int arithmetic on integer-kind values (texts are in Z scope)"""
+    const = None
+    if isinstance(op, (ast.Add, ast.Sub)):
+        sym, lp, rp, prec = ("+" if isinstance(op, ast.Add) else "-"), 50, 49, 50
+        if a.const is not None and b.const is not None:
+            const = a.const + b.const if isinstance(op, ast.Add) else a.const - b.const
+    elif isinstance(op, ast.Mult):
+        sym, lp, rp, prec = "*", 40, 39, 40
+        if a.const is not None and b.const is not None:
+            const = a.const * b.const
+    elif isinstance(op, ast.Mod):
+        sym, lp, rp, prec = "mod", 40, 39, 40
+        if b.const is None or b.const == 0:
+            ctx.pre.append(("guard", "(%s =? 0)%%Z" % par(b, 50), "ZeroDivisionError", getattr(node, "lineno", 0)))
+        if a.const is not None and b.const:
+            const = a.const % b.const
+    else:
+        bad(ctx, node, "integer operator %s" % type(op).__name__)
+    return V("%s %s %s" % (par(a, lp), sym, par(b, rp)), prec, "Z", None, const)
 
 
 def lift2(ctx, node, f, a, b):
@@ -302,6 +465,8 @@ def ex(ctx, node, env):
         if not isinstance(node.ctx, ast.Load):
             bad(ctx, node, "name in store position")
         n = node.id
+        if ctx.params.get(n) == "X":
+            bad(ctx, node, "use of the opaque parameter %s other than as an argument of an external call" % n)
         if n in env:
             b = env[n]
             if b is POISON:
@@ -319,8 +484,19 @@ def ex(ctx, node, env):
             raise UnboundRead(n, node.lineno)
         bad(ctx, node, "global name %s" % n)
     if isinstance(node, ast.Attribute):
-        if isinstance(node.value, ast.Name) and ctx.params.get(node.value.id) == "O" and isinstance(node.ctx, ast.Load):
-            key = "%s.%s" % (node.value.id, node.attr)
+        if isinstance(node.value, ast.Name) and node.value.id == "np" and node.attr == "pi" and isinstance(node.ctx, ast.Load):
+            if "np" in ctx.locals or ctx.imported.get("np") != "numpy":
+                bad(ctx, node, "np that is not `import numpy as np`")
+            ctx.uses_trig = True
+            return V("spi", 0, "F")
+        root = ctx.alias.get(node.value.id, node.value.id) if isinstance(node.value, ast.Name) else None
+        if root is not None and ctx.params.get(root) == "O" and isinstance(node.ctx, ast.Load):
+            key = "%s.%s" % (root, node.attr)
+            if key in ctx.slots:
+                b = env.get(key)
+                if b is None or b is POISON:
+                    raise TranslatorError("%s:%d: internal error: slot %s lost" % (ctx.rel, node.lineno, key))
+                return b
             cn, kind = ctx.attr_params[key]
             if kind == "C1":
                 return V("#1", 0, "F", ib=1, const=1)
@@ -380,8 +556,12 @@ def ex(ctx, node, env):
             op = ast.Eq()
         if type(op) not in CMP:
             bad(ctx, node, "comparison operator %s" % type(op).__name__)
+        if "Z" in (a.kind, b.kind) and a.kind in ("Z", "F") and b.kind in ("Z", "F") and not (zable(a) and zable(b)):
+            a, b = to_F(a), to_F(b)          # Python compares an int with a float by value
         kinds = (a.kind, b.kind)
-        if kinds == ("F", "F"):
+        if kinds == ("Z", "Z"):
+            t, p = "(%s %s %s)%%Z" % (par(a, 50), CMP[type(op)], par(b, 50)), 0
+        elif kinds == ("F", "F"):
             t, p = "%s %s %s" % (par(a, 50), CMP[type(op)], par(b, 50)), 70
         elif kinds in (("Z", "F"), ("F", "Z")):
             z, c = (a, b) if a.kind == "Z" else (b, a)
@@ -416,6 +596,13 @@ def ex(ctx, node, env):
         if not isinstance(node.ctx, ast.Load):
             bad(ctx, node, "subscript in store position")
         a = ex(ctx, node.value, env)
+        if not isinstance(a, A) and a.kind == "L":
+            i = ex(ctx, node.slice, env)
+            if not zable(i):
+                bad(ctx, node, "list index that is not an integer")
+            cn = fresh(ctx, a.t + "_at")
+            ctx.pre.append(("bind", cn, "py_index_src %s %s" % (a.t, zwrap(to_Z(i))), "IndexError", node.lineno))
+            return V(cn, 0, "F")
         if not isinstance(a, A):
             bad(ctx, node, "subscript of a non-array")
         i = const_int(ctx, node, ex(ctx, node.slice, env), "array index")
@@ -433,8 +620,12 @@ def ex(ctx, node, env):
 
 def ex_guarded(ctx, node, env):
     """operand that Python may skip (short-circuit): an unbound read inside cannot be modelled by `None`"""
+    n_pre = len(ctx.pre)
     try:
-        return ex(ctx, node, env)
+        v = ex(ctx, node, env)
+        if len(ctx.pre) != n_pre:
+            bad(ctx, node, "operation that can raise (%s) in a short-circuited operand" % ctx.pre[-1][-2])
+        return v
     except UnboundRead as u:
         raise ShortCircuit("%s:%d: unsupported possibly-unbound name %s in a short-circuited operand" % (ctx.rel, u.line, u.name))
 
@@ -462,6 +653,13 @@ def call(ctx, node, env):
                 need_F(ctx, node, y, "np." + f.attr)
                 return V("%s %s %s" % (fn, par(x, 0), par(y, 0)), 10, "F")
             return lift2(ctx, node, g, a, b)
+        if f.attr == "isnan" and len(args) == 1:
+            a = need_F(ctx, node, ex(ctx, args[0], env), "np.isnan")
+            return V("negb (%s =? %s)" % (par(a, 50), par(a, 50)), 10, "B")
+        if f.attr == "sin" and len(args) == 1:
+            a = need_F(ctx, node, ex(ctx, args[0], env), "np.sin")
+            ctx.uses_trig = True
+            return V("ssin %s" % par(a, 0), 10, "F")
         if f.attr in ("zeros", "ones") and len(args) == 1:
             k = const_int(ctx, node, ex(ctx, args[0], env), "array size")
             if not 1 <= k <= MAX_ARRAY:
@@ -471,13 +669,39 @@ def call(ctx, node, env):
     if isinstance(f, ast.Name):
         if f.id in ctx.locals:
             bad(ctx, node, "call of a local name %s" % f.id)
-        if f.id in ("min", "max") and len(args) == 2:
-            a = need_F(ctx, node, ex(ctx, args[0], env), f.id)
-            b = need_F(ctx, node, ex(ctx, args[1], env), f.id)
-            ib = None if (a.ib is None and b.ib is None) else max(a.ib or 0, b.ib or 0)
-            return V("%s %s %s" % ("p" + f.id, par(a, 0), par(b, 0)), 10, "F", ib)
+        if f.id in ("min", "max") and (len(args) == 2 or (len(args) == 1 and isinstance(args[0], ast.List)
+                                                           and 2 <= len(args[0].elts) <= MAX_ARRAY)):
+            # min(a, b); min([a, b, c]) keeps the first minimal element: pmin (pmin a b) c
+            elts = args if len(args) == 2 else args[0].elts
+            acc = to_F(ex(ctx, elts[0], env))
+            need_F(ctx, node, acc, f.id)
+            for e in elts[1:]:
+                b = to_F(ex(ctx, e, env))
+                need_F(ctx, node, b, f.id)
+                ib = None if (acc.ib is None and b.ib is None) else max(acc.ib or 0, b.ib or 0)
+                acc = V("%s %s %s" % ("p" + f.id, par(acc, 0), par(b, 0)), 10, "F", ib)
+            return acc
+        if f.id == "float" and len(args) == 1:
+            a = ex(ctx, args[0], env)
+            if isinstance(a, A) or a.kind not in ("F", "Z"):
+                bad(ctx, node, "float of a non-number")
+            a = to_F(a)
+            return V(a.t, a.prec, "F")
+        if f.id in ("int", "round") and 1 <= len(args) <= 2:
+            a = ex(ctx, args[0], env)
+            if f.id == "int" and len(args) == 1 and zable(a):
+                return to_Z(a)
+            opn = ROUND_OPS.get((ctx.fname, ast.unparse(node)))
+            if opn is None or isinstance(a, A) or a.kind != "F":
+                bad(ctx, node, "%s(...) that is not listed in ROUND_OPS" % f.id)
+            if opn in ("ntrunc", "nrint"):
+                return V("%s num_ops (%s)%%num" % (opn, a.t), 10, "Z")
+            d = const_int(ctx, node, ex(ctx, args[1], env), "number of digits")
+            if opn not in ("nround_np", "nround_py"):
+                bad(ctx, node, "ROUND_OPS entry %s" % opn)
+            return V("%s num_ops %d %s" % (opn, d, par(a, 0)), 10, "F")
         if f.id == "abs" and len(args) == 1:
-            a = need_F(ctx, node, ex(ctx, args[0], env), "abs")
+            a = need_F(ctx, node, to_F(ex(ctx, args[0], env)), "abs")
             return V("nabs %s" % par(a, 0), 10, "F", a.ib)
         if f.id == "len" and len(args) == 1:
             a = ex(ctx, args[0], env)
@@ -574,7 +798,7 @@ def simplify(t):
     if k == "let":
         rhs = simplify(t[2]) if isinstance(t[2], tuple) else t[2]
         body = simplify(t[3])
-        if body[0] == "unb":
+        if body[0] in ("unb", "exc"):
             return body
         if body[0] == "val" and body[1] == tuple_text(t[1]):
             return rhs if isinstance(rhs, tuple) else ("val", rhs)
@@ -583,7 +807,7 @@ def simplify(t):
         return ("bind", t[1], t[2], simplify(t[3]))
     if k == "if":
         a, b = simplify(t[2]), simplify(t[3])
-        if a[0] == "unb" and b[0] == "unb":
+        if a[0] in ("unb", "exc") and b[0] in ("unb", "exc"):
             return a
         return ("if", t[1], a, b)
     return t
@@ -640,7 +864,7 @@ def render(t, opt, ind):
         return out
     if k == "ret":
         return ["%s%s" % (pad, ("Some %s" % t[1]) if opt else t[1])]
-    if k == "unb":
+    if k in ("unb", "exc"):
         return ["%sNone" % pad]
     if k == "val":
         return ["%s%s" % (pad, t[1])]
@@ -661,12 +885,42 @@ def bind_value(ctx, env, name, val):
             lets.append(([cn], e.t))
             env[(name, i)] = V(cn, 0, "F", e.ib, e.const)
     else:
-        if val.kind != "F":
+        if val.kind not in ("F", "Z", "B"):
             return None
         cn = fresh(ctx, name)
-        lets.append(([cn], val.t))
-        env[name] = V(cn, 0, "F", val.ib, val.const)
+        lets.append(([cn], vtext(val)))
+        env[name] = V(cn, 0, val.kind, val.ib, val.const)
     return lets
+
+
+def coerce(ctx, node, val, kind, what):
+    """value stored into a parameter / slot of a declared kind"""
+    if isinstance(val, A):
+        bad(ctx, node, "array stored into %s" % what)
+    if kind == "Z":
+        if not zable(val):
+            bad(ctx, node, "non-integer stored into the integer %s" % what)
+        return to_Z(val)
+    if kind == "F":
+        if val.kind not in ("F", "Z"):
+            bad(ctx, node, "non-number stored into %s" % what)
+        return to_F(val)
+    if kind == "B":
+        if val.kind != "B":
+            bad(ctx, node, "non-boolean stored into the boolean %s" % what)
+        return val
+    bad(ctx, node, "store into %s of kind %s" % (what, kind))
+
+
+def wrap_pre(pre, t):
+    """partial operations of a statement, first one outermost"""
+    for act in reversed(pre):
+        if act[0] == "guard":
+            t = ("if", act[1], ("exc", act[2], act[3]), t)
+        else:
+            t = ("bind", [act[1]], (act[2], True), t)
+    return t
+
 
 
 def wrap_lets(lets, body):
@@ -687,6 +941,27 @@ def block(ctx, stmts, env, k, live_out):
 
 
 def stmt(ctx, s, rest, env, k, live_out):
+    saved, mine = ctx.pre, []
+    ctx.pre = mine
+    try:
+        t = stmt_inner(ctx, s, rest, env, k, live_out)
+    finally:
+        ctx.pre = saved
+    if mine:
+        ctx.calls_opt = True
+    return wrap_pre(mine, t)
+
+
+def stmt_inner(ctx, s, rest, env, k, live_out):
+    if id(s) in ctx.alias_stmts:
+        return block(ctx, rest, env, k, live_out)
+    if isinstance(s, ast.Assert):
+        if s.msg is not None and not isinstance(s.msg, ast.Constant):
+            bad(ctx, s, "assert with a computed message")
+        c = ex(ctx, s.test, env)
+        if isinstance(c, A) or c.kind != "B":
+            bad(ctx, s, "assert of a non-boolean")
+        return ("if", c.t, block(ctx, rest, env, k, live_out), ("exc", "AssertionError", s.lineno))
     if isinstance(s, ast.Expr) and isinstance(s.value, ast.Constant) and isinstance(s.value.value, str):
         return block(ctx, rest, env, k, live_out)        # docstring / string statement
     if isinstance(s, ast.Pass):
@@ -698,13 +973,23 @@ def stmt(ctx, s, rest, env, k, live_out):
             bad(ctx, s, "return without a value")
         elts = s.value.elts if isinstance(s.value, ast.Tuple) else [s.value]
         vals = []
-        for e in elts:
-            v = ex(ctx, e, env)
-            if isinstance(v, A) or v.kind != "F":
-                bad(ctx, e, "return of a non-number")
-            vals.append(v)
-        ctx.arity.add(len(vals))
-        return ("ret", par(vals[0], 0) if len(vals) == 1 else "(" + ", ".join(v.t for v in vals) + ")")
+        if (len(elts) == 1 and isinstance(elts[0], ast.Name) and ctx.params.get(ctx.alias.get(elts[0].id, elts[0].id)) == "O"
+                and ctx.slots):
+            root = ctx.alias.get(elts[0].id, elts[0].id)
+            for key in ctx.slots:            # first-store order
+                if not key.startswith(root + "."):
+                    bad(ctx, s, "return of %s while a slot of another object is written" % root)
+                vals.append(env[key])
+        else:
+            for e in elts:
+                v = ex(ctx, e, env)
+                if isinstance(v, A) or v.kind not in ("F", "Z", "B"):
+                    bad(ctx, e, "return of a non-number")
+                vals.append(v)
+        ctx.arity.add(tuple(v.kind for v in vals))
+        if len(vals) == 1:
+            return ("ret", par(vals[0], 0) if vals[0].kind != "Z" else zwrap(vals[0]))
+        return ("ret", "(" + ", ".join(vtext(v) for v in vals) + ")")
     if isinstance(s, (ast.Assign, ast.AugAssign)):
         if isinstance(s, ast.Assign):
             if len(s.targets) != 1:
@@ -719,6 +1004,18 @@ def stmt(ctx, s, rest, env, k, live_out):
             value = ast.copy_location(ast.BinOp(left=load, op=s.op, right=s.value), s)
             ast.fix_missing_locations(value)
         env = dict(env)
+        if id(s) in ctx.ext_stmts:
+            for a in value.args:
+                if not (isinstance(a, ast.Name) and ctx.params.get(a.id) == "X"):
+                    v = ex(ctx, a, env)          # definedness of the argument on this path
+                    if isinstance(v, A) or v.kind not in ("F", "Z"):
+                        bad(ctx, a, "argument of an external call")
+            for t in tgt.elts:
+                env_del(env, t.id)
+                cn = ctx.ext_stmts[id(s)].get(t.id)
+                if cn is not None:
+                    env[t.id] = V(cn, 0, "F")
+            return block(ctx, rest, env, k, live_out)
         if id(s) in ctx.rebinds:
             i = const_int(ctx, s, ex(ctx, value.slice, env), "list index")
             if i < 0:
@@ -733,9 +1030,18 @@ def stmt(ctx, s, rest, env, k, live_out):
                 and value.func.id not in ctx.locals:
             return call_stmt(ctx, s, tgt, value, rest, env, k, live_out)
         val = ex(ctx, value, env)
-        if isinstance(tgt, ast.Name):
-            if tgt.id in ctx.params and ctx.params[tgt.id] != "F":
+        if isinstance(tgt, ast.Attribute) and isinstance(tgt.value, ast.Name) \
+                and "%s.%s" % (ctx.alias.get(tgt.value.id, tgt.value.id), tgt.attr) in ctx.slots:
+            key = "%s.%s" % (ctx.alias.get(tgt.value.id, tgt.value.id), tgt.attr)
+            val = coerce(ctx, s, val, ctx.slots[key], "attribute " + key)
+            cn = fresh(ctx, key.replace(".", "_"))
+            lets = [([cn], vtext(val))]
+            env[key] = V(cn, 0, val.kind, val.ib, val.const)
+        elif isinstance(tgt, ast.Name):
+            if tgt.id in ctx.params and ctx.params[tgt.id] not in ("F", "Z", "B"):
                 bad(ctx, s, "assignment to the non-number parameter %s" % tgt.id)
+            if tgt.id in ctx.params and ctx.params[tgt.id] != "F":
+                val = coerce(ctx, s, val, ctx.params[tgt.id], "parameter " + tgt.id)
             lets = bind_value(ctx, env, tgt.id, val)
             if lets is None:
                 bad(ctx, s, "assignment of a non-number to %s" % tgt.id)
@@ -835,7 +1141,7 @@ def join(ctx, c, s, env, live_after):
     changed = []
     for key in list(e1.keys()) + [k for k in e2.keys() if k not in e1]:
         b1, b2 = e1.get(key), e2.get(key)
-        is_live = base_of(key) in live_after
+        is_live = base_of(key) in live_after or (isinstance(key, str) and "." in key)
         if b1 is None or b2 is None or b1 is POISON or b2 is POISON:
             if is_live:
                 raise NotJoinable()
@@ -849,9 +1155,11 @@ def join(ctx, c, s, env, live_after):
             else:
                 env2[key] = b1
             continue
-        if b1.t == b2.t:
+        if b1.t == b2.t and b1.kind == b2.kind:
             env2[key] = b1
         elif is_live:
+            if b1.kind != b2.kind:
+                raise NotJoinable()
             changed.append(key)
         else:
             env2[key] = POISON
@@ -864,10 +1172,10 @@ def join(ctx, c, s, env, live_after):
     names = []
     for key in changed:
         b1, b2 = e1[key], e2[key]
-        cn = fresh(ctx, key if isinstance(key, str) else "%s_%d" % key)
+        cn = fresh(ctx, key.replace(".", "_") if isinstance(key, str) else "%s_%d" % key)
         names.append(cn)
         ib = None if (b1.ib is None and b2.ib is None) else max(b1.ib or 0, b2.ib or 0)
-        env2[key] = V(cn, 0, "F", ib, b1.const if (b1.const is not None and b1.const == b2.const and isinstance(key, str)) else None)
+        env2[key] = V(cn, 0, b1.kind, ib, b1.const if (b1.const is not None and b1.const == b2.const and isinstance(key, str)) else None)
     v1 = ("val", tuple_text([e1[k].t for k in changed]))
     v2 = ("val", tuple_text([e2[k].t for k in changed]))
     rhs = ("if", c.t, subst_hole(t1, v1), subst_hole(t2, v2))
@@ -949,15 +1257,37 @@ def translate_function(rel, fname, text, strings, translated):
         if b in ctx.imported:
             bad(ctx, fn, "module that rebinds the builtin %s" % b)
     if blk:
-        starts = [i for i, st in enumerate(fn.body) if isinstance(st, ast.If) and ast.unparse(st.test) == blk["first_if"]]
-        ends = [i for i, st in enumerate(fn.body) if isinstance(st, ast.Assign) and len(st.targets) == 1
-                and ast.unparse(st.targets[0]) == blk["last_store"]]
-        if not starts or len(ends) != 1 or ends[0] <= starts[0]:
-            bad(ctx, fn, "function %s: block `if %s:` ... `%s = ...` not found exactly once at top level"
-                % (defname, blk["first_if"], blk["last_store"]))
-        body = list(fn.body[starts[0]:ends[0]])
+        def is_store(st, target):
+            return isinstance(st, ast.Assign) and len(st.targets) == 1 and ast.unparse(st.targets[0]) == target
+
+        def is_if(st, test):
+            return isinstance(st, ast.If) and ast.unparse(st.test) == test
+        if "first_if" in blk:
+            starts = [i for i, st in enumerate(fn.body) if is_if(st, blk["first_if"])]
+            first_txt = "if %s:" % blk["first_if"]
+        else:
+            starts = [i for i, st in enumerate(fn.body) if is_store(st, blk["first_store"])]
+            first_txt = "%s = ..." % blk["first_store"]
+        if "last_store" in blk:
+            ends = [i for i, st in enumerate(fn.body) if is_store(st, blk["last_store"])]
+            last_txt = "%s = ..." % blk["last_store"]
+        else:
+            ends = [i for i, st in enumerate(fn.body) if is_if(st, blk["last_if"]) and (not starts or i > starts[0])][:1]
+            last_txt = "if %s:" % blk["last_if"]
+        if not starts or len(ends) != 1 or ends[0] <= starts[0] or ("first_store" in blk and len(starts) != 1):
+            bad(ctx, fn, "function %s: block `%s` ... `%s` not found exactly once at top level" % (defname, first_txt, last_txt))
         last = fn.body[ends[0]]
-        body.append(ast.copy_location(ast.Return(value=last.value), last))
+        if "last_store" in blk:
+            # the right-hand side of the closing store is the result
+            body = list(fn.body[starts[0]:ends[0]])
+            body.append(ast.copy_location(ast.Return(value=last.value), last))
+        else:
+            # the block ends with the closing `if`; its result is the object <returns> (the attributes written)
+            body = list(fn.body[starts[0]:ends[0] + 1])
+            ret = ast.Return(value=ast.Name(id=blk["returns"], ctx=ast.Load()))
+            ret.lineno = ret.end_lineno = ret.value.lineno = ret.value.end_lineno = last.end_lineno
+            ret.col_offset = ret.end_col_offset = ret.value.col_offset = ret.value.end_col_offset = 0
+            body.append(ret)
         scope = ast.Module(body=body, type_ignores=[])
         seg = "\n".join(text.splitlines()[body[0].lineno - 1:last.end_lineno])
         hidden = set(ctx.imported) | {"min", "max", "abs", "len", "range"}
@@ -993,7 +1323,7 @@ def translate_function(rel, fname, text, strings, translated):
     for n in ast.walk(scope):
         if isinstance(n, (ast.FunctionDef, ast.AsyncFunctionDef, ast.ClassDef, ast.Lambda)) and n is not fn:
             bad(ctx, n, "nested definition")
-        if isinstance(n, (ast.Global, ast.Nonlocal, ast.While, ast.Try, ast.With, ast.Raise, ast.Assert, ast.Delete,
+        if isinstance(n, (ast.Global, ast.Nonlocal, ast.While, ast.Try, ast.With, ast.Raise, ast.Delete,
                           ast.Import, ast.ImportFrom, ast.Yield, ast.YieldFrom, ast.Await, ast.NamedExpr,
                           ast.ListComp, ast.SetComp, ast.DictComp, ast.GeneratorExp, ast.IfExp, ast.Starred)):
             bad(ctx, n, type(n).__name__.lower())
@@ -1007,11 +1337,25 @@ def translate_function(rel, fname, text, strings, translated):
             bad(ctx, fn, "local name that shadows %s" % b)
     # parameter kinds; objects are inferred from attribute reads
     attr_roots = []
+    attr_root_nodes = {id(n.value) for n in ast.walk(scope) if isinstance(n, ast.Attribute) and isinstance(n.value, ast.Name)}
+    returned_bare = {id(n.value) for n in ast.walk(scope) if isinstance(n, ast.Return) and isinstance(n.value, ast.Name)}
+    # `X = P` directly in the body, P a parameter, X otherwise only used as X.attr / `return X`, later in the text:
+    # X is another name of the object P
+    for st in body:
+        if (isinstance(st, ast.Assign) and len(st.targets) == 1 and isinstance(st.targets[0], ast.Name)
+                and isinstance(st.value, ast.Name) and st.value.id in pynames and st.targets[0].id not in pynames
+                and KINDS.get((fname, st.value.id), "O") == "O"):
+            x = st.targets[0].id
+            occ = [n for n in ast.walk(scope) if isinstance(n, ast.Name) and n.id == x and n is not st.targets[0]]
+            if occ and all((id(n) in attr_root_nodes or id(n) in returned_bare) and n.lineno > st.end_lineno for n in occ) \
+                    and any(id(n) in attr_root_nodes for n in occ) and x not in ctx.alias:
+                ctx.alias[x] = st.value.id
+                ctx.alias_stmts.add(id(st))
 
     class Scan(ast.NodeVisitor):
         def visit_Attribute(self, n):
-            if isinstance(n.value, ast.Name) and n.value.id in pynames:
-                attr_roots.append((n.value.id, n.attr, n))
+            if isinstance(n.value, ast.Name) and ctx.alias.get(n.value.id, n.value.id) in pynames:
+                attr_roots.append((ctx.alias.get(n.value.id, n.value.id), n.attr, n))
             self.generic_visit(n)
     for st in body:
         Scan().visit(st)
@@ -1026,7 +1370,12 @@ def translate_function(rel, fname, text, strings, translated):
     # an object parameter may only occur as P.attr in load position
     # (blocks: also `p = Q.attr[i]` with Q.attr of kind OL, once, textually before every attribute read of p)
     ctx.rebinds = set()
+    for p in pynames:
+        if p not in objs and any(v == p for v in ctx.alias.values()):
+            bad(ctx, fn, "alias of the parameter %s that is not an object" % p)
     for p in objs:
+        family = {p} | {x for x, q in ctx.alias.items() if q == p}
+        n_alias = sum(1 for x, q in ctx.alias.items() if q == p)
         rebinds = []
         for n in ast.walk(scope):
             if isinstance(n, ast.Assign) and len(n.targets) == 1 and isinstance(n.targets[0], ast.Name) and n.targets[0].id == p:
@@ -1035,17 +1384,45 @@ def translate_function(rel, fname, text, strings, translated):
                         and v.value.value.id in objs and v.value.value.id != p
                         and KINDS.get((fname, "%s.%s" % (v.value.value.id, v.value.attr))) == "OL"):
                     rebinds.append(n)
-        uses = sum(1 for n in ast.walk(scope) if isinstance(n, ast.Name) and n.id == p)
-        attrs = sum(1 for r, _, n in attr_roots if r == p and isinstance(n.ctx, ast.Load))
-        nstores = sum(1 for n in ast.walk(scope) if isinstance(n, ast.Name) and n.id == p and isinstance(n.ctx, ast.Store))
+        uses = sum(1 for n in ast.walk(scope) if isinstance(n, ast.Name) and n.id in family)
+        attrs = sum(1 for r, _, n in attr_roots if r == p)
+        bare_ret = sum(1 for n in ast.walk(scope) if isinstance(n, ast.Name) and n.id in family and id(n) in returned_bare)
+        nstores = sum(1 for n in ast.walk(scope) if isinstance(n, ast.Name) and n.id in family and isinstance(n.ctx, ast.Store))
         first_read = min([n.lineno for r, _, n in attr_roots if r == p] or [10 ** 9])
-        if (uses != attrs + len(rebinds) or nstores != len(rebinds) or len(rebinds) > 1
+        if (uses != attrs + len(rebinds) + 2 * n_alias + bare_ret or nstores != len(rebinds) + n_alias or len(rebinds) > 1
                 or any(n.end_lineno >= first_read for n in rebinds)):
             bad(ctx, rebinds[0] if rebinds else fn, "use of the object parameter %s other than reading an attribute" % p)
         for n in rebinds:
             ctx.rebinds.add(id(n))
+    # attributes the function writes: slots, in the order of their first store in the text
+    for r, attr, n in sorted([x for x in attr_roots if isinstance(x[2].ctx, ast.Store)], key=lambda x: (x[2].lineno, x[2].col_offset)):
+        key = "%s.%s" % (r, attr)
+        if key not in ctx.slots:
+            k2 = KINDS.get((fname, key), "F")
+            if k2 not in ("F", "Z", "B"):
+                bad(ctx, n, "store into %s of kind %s" % (key, k2))
+            ctx.slots[key] = k2
+    # external calls
+    ext = []
+    for n in ast.walk(scope):
+        if (isinstance(n, ast.Assign) and isinstance(n.value, ast.Call) and isinstance(n.value.func, ast.Name)
+                and (fname, n.value.func.id) in EXTERNALS):
+            callee = n.value.func.id
+            tg = n.targets[0] if len(n.targets) == 1 else None
+            if not (isinstance(tg, ast.Tuple) and len(tg.elts) == EXTERNALS[(fname, callee)]
+                    and all(isinstance(e, ast.Name) for e in tg.elts) and len({e.id for e in tg.elts}) == len(tg.elts)
+                    and not n.value.keywords and not any(isinstance(a, ast.Starred) for a in n.value.args)):
+                bad(ctx, n, "call of %s that is not `t1, ..., t%d = %s(positional arguments)`" % (callee, EXTERNALS[(fname, callee)], callee))
+            imps = [(m.module or "", m.level) for m in ast.walk(mod) if isinstance(m, ast.ImportFrom)
+                    for a in m.names if (a.asname or a.name) == callee]
+            if not imps or any(mo.split(".")[-1] != callee for mo, _ in imps) or callee in ctx.locals:
+                bad(ctx, n, "call of %s that is not imported by `from .%s import %s`" % (callee, callee, callee))
+            if any(e[0] == callee for e in ext):
+                bad(ctx, n, "second call of %s" % callee)
+            ext.append((callee, n))
     # Coq parameter list
     assumptions = []
+    droppable = set()   # initial values of written attributes: kept only if the body uses them
     coq_params = []     # (coq name, type)
     pyparams = []       # (python name, kind) for callers
     env = {}
@@ -1073,6 +1450,9 @@ def translate_function(rel, fname, text, strings, translated):
                     bad(ctx, n, "kind %s of %s" % (k2, key))
                 ctx.attr_params[key] = (cn, k2)
                 coq_params.append((cn, k2))
+                if key in ctx.slots:
+                    env[key] = V(cn, 0, k2)
+                    droppable.add(cn)
         elif kind.startswith("A"):
             n_el = int(kind[1:])
             if not 1 <= n_el <= MAX_ARRAY:
@@ -1082,12 +1462,26 @@ def translate_function(rel, fname, text, strings, translated):
                 cn = fresh(ctx, "%s_%d" % (p, i))
                 env[(p, i)] = V(cn, 0, "F")
                 coq_params.append((cn, "F"))
-        elif kind in ("F", "Z", "B", "S"):
+        elif kind in ("F", "Z", "B", "S", "L"):
             cn = fresh(ctx, p)
             env[p] = V(cn, 0, kind)
             coq_params.append((cn, kind))
+        elif kind == "X":
+            pass
         else:
             bad(ctx, fn, "parameter kind %s" % kind)
+    all_loads = loads(scope)
+    for callee, n in ext:
+        m = {}
+        for e in n.targets[0].elts:
+            if e.id in all_loads:
+                if e.id in ctx.params:
+                    bad(ctx, n, "result of %s stored into the parameter %s" % (callee, e.id))
+                cn = fresh(ctx, e.id)
+                m[e.id] = cn
+                coq_params.append((cn, "F"))
+        ctx.ext_stmts[id(n)] = m
+        ctx.calls.append((callee, [ast.unparse(a) for a in n.value.args]))
     ctx.arity = set()
     ctx.calls_opt = False
 
@@ -1098,32 +1492,52 @@ def translate_function(rel, fname, text, strings, translated):
     if not any(l[0] == "ret" for l in lv):
         bad(ctx, fn, "function without a defined return")
     if len(ctx.arity) != 1:
-        bad(ctx, fn, "returns of different arity")
-    arity = ctx.arity.pop()
-    opt = any(l[0] == "unb" for l in lv) or ctx.calls_opt
+        bad(ctx, fn, "returns of different arity / kinds")
+    ret_kinds = ctx.arity.pop()
+    if not isinstance(ret_kinds, tuple):
+        ret_kinds = ("F",) * ret_kinds
+    arity = len(ret_kinds)
+    opt = any(l[0] in ("unb", "exc") for l in lv) or ctx.calls_opt
     unb = sorted({(l[2], l[1]) for l in lv if l[0] == "unb"})
-    rt = " * ".join(["F"] * arity)
+    exc = sorted({(l[2], l[1]) for l in lv if l[0] == "exc"})
+    TY = {"F": "F", "Z": "Z", "B": "bool", "S": "pystr", "L": "list F"}
+    rt = " * ".join(TY[k] for k in ret_kinds)
     if opt:
         rt = "option %s" % ("(%s)" % rt if arity > 1 else rt)
+    body = render(tree, opt, 4)
+    if droppable:
+        import re
+        words = set(re.findall(r"[A-Za-z_][A-Za-z_0-9']*", "\n".join(body)))
+        coq_params = [(cn, kind) for cn, kind in coq_params if cn not in droppable or cn in words]
     # signature
     groups = []
     for cn, kind in coq_params:
-        ty = {"F": "F", "Z": "Z", "B": "bool", "S": "pystr"}[kind]
+        ty = TY[kind]
         if groups and groups[-1][1] == ty:
             groups[-1][0].append(cn)
         else:
             groups.append(([cn], ty))
     sig = " ".join("(%s : %s)" % (" ".join(ns), ty) for ns, ty in groups)
-    body = render(tree, opt, 4)
     sha = hashlib.sha256(seg.encode("utf-8")).hexdigest()
     lines = []
     lines.append("  (* %s :: %s   sha256 %s" % (rel, fname, sha))
     if blk:
-        lines.append("     block of function %s: from the first top-level `if %s:` to `%s = <result>`; parameters = free names"
-                     % (defname, blk["first_if"], blk["last_store"]))
+        lines.append("     block of function %s: from the first top-level `%s` to `%s`; parameters = free names"
+                     % (defname, "if %s:" % blk["first_if"] if "first_if" in blk else blk["first_store"] + " = ...",
+                        blk["last_store"] + " = <result>" if "last_store" in blk else "if %s:" % blk["last_if"] + " (result: the attributes written)"))
         if assumptions:
             lines.append("     ASSUMED: %s" % "; ".join(assumptions))
     lines.append("     python parameters: %s" % ", ".join("%s:%s" % pk for pk in pyparams))
+    if ctx.alias:
+        lines.append("     other names of a parameter: %s" % ", ".join("%s = %s" % kv for kv in ctx.alias.items()))
+    if ctx.slots:
+        lines.append("     attributes written (slots; `return <object>` returns them in this order): %s"
+                     % ", ".join("%s:%s" % kv for kv in ctx.slots.items()))
+    for callee, n in ext:
+        lines.append("     external call %s(%s): results read = parameters %s" % (
+            callee, ", ".join(ast.unparse(a) for a in n.value.args), " ".join(ctx.ext_stmts[id(n)].values()) or "-"))
+    if exc:
+        lines.append("     None = %s" % "; ".join("%s at line %d" % (nm, ln) for ln, nm in exc))
     if unb:
         lines.append("     None = UnboundLocalError: %s *)" % "; ".join("%s read at line %d" % (nm, ln) for ln, nm in unb))
     else:
@@ -1132,7 +1546,7 @@ def translate_function(rel, fname, text, strings, translated):
     lines += body
     lines[-1] += "."
     stats = {"nodes": sum(1 for _ in ast.walk(scope)), "term": size(tree), "option": opt, "params": len(coq_params), "sha256": sha}
-    info = {"pyparams": pyparams, "arity": arity, "opt": opt}
+    info = {"pyparams": pyparams, "arity": arity, "opt": opt, "calls": ctx.calls, "trig": ctx.uses_trig}
     return "\n".join(lines), stats, info
 
 
@@ -1187,6 +1601,69 @@ def generate(only=None):
     return out, {"functions": len(parts), "per_function": stats, "strings": strings}
 
 
+HEADER_PROCS = r"""(* GENERATED by harness/gen_kernels.py from the source text of the functions listed below.  DO NOT EDIT.
+   Each [<name>_src] is the mechanical translation of the Python function body (see the translator's docstring and the
+   comment in front of each definition: parameters, slots, external calls, which exception each None stands for);
+   theories/proofs/ProcsSrcOK.v proves it equal to the hand model (Water/RainIrr.v, Crop/Yield.v) for every number type.
+%s *)
+From Coq Require Import String.
+From AC Require Import Num.
+
+(* Python sequence indexing with negative wrap-around; None = IndexError *)
+Definition py_index_src {A} (l : list A) (i : Z) : option A :=
+  let n := Z.of_nat (length l) in
+  let j := if (i <? 0)%%Z then (i + n)%%Z else i in
+  if ((j <? 0) || (n <=? j))%%Z then None else nth_error l (Z.to_nat j).
+
+(* np.sin / np.pi are not operations of Num.v *)
+Class TrigSrc (F : Type) := { ssin : F -> F; spi : F }.
+
+Section ProcsSrc.
+  Context {F : Type} {N : NumOps F} {T : TrigSrc F}.
+  Local Open Scope num_scope.
+
+"""
+
+
+def coq_string(t):
+    return '"%s"%%string' % t.replace('"', '""')
+
+
+def generate_procs(only=None):
+    strings = []
+    translated = {}
+    parts = []
+    calls = []
+    stats = {}
+    shas = []
+    for rel, fname in PROCS:
+        if only is not None and fname not in only:
+            continue
+        path = os.path.join(REPO, rel)
+        try:
+            with open(path) as f:
+                text = f.read()
+        except OSError as e:
+            raise TranslatorError("%s:0: unsupported source file (%s)" % (rel, e.strerror))
+        body, st, info = translate_function(rel, fname, text, strings, translated)
+        translated[fname] = info
+        parts.append(body)
+        stats[fname] = st
+        shas.append("     %s  %s :: %s" % (st["sha256"], rel, fname))
+        if info["calls"]:
+            calls.append("(* the external calls of %s: callee, source text of the arguments *)\n"
+                         "Definition %s_src_calls : list (string * list string) :=\n  [%s]." % (
+                             fname, fname, "; ".join("(%s, [%s])" % (coq_string(c), "; ".join(coq_string(a) for a in args))
+                                                     for c, args in info["calls"])))
+    if strings:
+        raise TranslatorError("%s:0: unsupported string constant in a process function" % PROCS[0][0])
+    out = HEADER_PROCS % "\n".join(shas)
+    out += "\n\n".join(parts) + "\n\nEnd ProcsSrc.\n"
+    if calls:
+        out += "\n" + "\n\n".join(calls) + "\n"
+    return out, {"functions": len(parts), "per_function": stats}
+
+
 def main(argv=None):
     argv = list(sys.argv[1:] if argv is None else argv)
     out_dir = OUT
@@ -1207,18 +1684,22 @@ def main(argv=None):
             print("TRANSLATOR-ERROR: unknown argument %s" % a)
             sys.exit(2)
     try:
-        text, stats = generate(only)
+        # nothing is written unless both files translated
+        results = [(OUT_FILE,) + generate(only), (PROCS_FILE,) + generate_procs(only)]
         os.makedirs(out_dir, exist_ok=True)
-        p = os.path.join(out_dir, OUT_FILE)
-        old = open(p).read() if os.path.exists(p) else None
-        if old != text:
-            with open(p, "w") as f:
-                f.write(text)
-            stats["rewritten"] = True
+        allstats = {}
+        for fn, text, stats in results:
+            p = os.path.join(out_dir, fn)
+            old = open(p).read() if os.path.exists(p) else None
+            if old != text and stats["functions"]:
+                with open(p, "w") as f:
+                    f.write(text)
+                stats["rewritten"] = True
+            allstats[fn] = stats
     except (TranslatorError, OSError, RecursionError) as e:
         print("TRANSLATOR-ERROR: %s" % e)
         sys.exit(2)
-    print(json.dumps({OUT_FILE: stats}))
+    print(json.dumps(allstats))
 
 
 if __name__ == "__main__":
